@@ -41,6 +41,10 @@ type C03Scenario struct {
 	FilterOp *C03Op    `json:"filter_op,omitempty"`
 	HookOp   *C03Op    `json:"hook_op,omitempty"`
 	Persist  bool      `json:"persist"`
+	// SQLite (with Persist, normal build only): the bus is backed by a file-based SQLite store instead of the MemoryStore.
+	// (Not ":memory:": in shared-cache mode a writer waits for another goroutine's open read cursor inside the
+	// driver, which the scheduler cannot see through while that other task is parked.)
+	SQLite bool `json:"sqlite,omitempty"`
 	Panics   bool      `json:"panics,omitempty"` // handlers panic for events whose id is even
 	Obs      bool      `json:"obs,omitempty"`
 }
@@ -70,6 +74,7 @@ func genC03(rt *rapid.T) core.Scenario {
 	perm := rapid.Permutation(intRange(len(allTypes))).Draw(rt, "types")
 	copy(sc.Types[:], perm[:3])
 	sc.Persist = rapid.Bool().Draw(rt, "persist")
+	sc.SQLite = sc.Persist && !raceBuild && rapid.IntRange(0, 4).Draw(rt, "sqlite") == 4
 	sc.Obs = rapid.IntRange(0, 3).Draw(rt, "obs") == 3
 	sc.Panics = rapid.IntRange(0, 3).Draw(rt, "panics") == 3
 	kinds := c03Kinds
@@ -145,9 +150,25 @@ func (sc *C03Scenario) Execute(t *testing.T) *core.Outcome {
 	}
 	body := func() {
 		var opts []eventbus.Option
-		var store *eventbus.MemoryStore
+		var store interface {
+			eventbus.EventStore
+			eventbus.SubscriptionStore
+		}
 		if sc.Persist {
 			store = eventbus.NewMemoryStore()
+			if sc.SQLite {
+				env := newStoreEnv()
+				defer env.Close()
+				st, err := env.openStore(StoreCfg{Kind: "sqlite", StreamBatch: 2 * (len(sc.Tasks) % 2)}, "main")
+				if err != nil {
+					out.HarnessErr = err.Error()
+					return
+				}
+				store = st.(interface {
+					eventbus.EventStore
+					eventbus.SubscriptionStore
+				})
+			}
 			opts = append(opts, eventbus.WithStore(store))
 		}
 		if sc.Obs {
@@ -286,6 +307,11 @@ func (sc *C03Scenario) Execute(t *testing.T) *core.Outcome {
 			case "wait":
 				w.Bus.Wait()
 			case "shutdown":
+				if sc.SQLite {
+					// Shutdown closes the store; database/sql's Close waits, inside the dependency, for cursors that
+					// other tasks still hold open - tasks the scheduler has parked. Not a schedule the simulator can run.
+					return
+				}
 				c, cancel := context.WithTimeout(ctx, time.Duration(op.N)*time.Millisecond)
 				w.Bus.Shutdown(c)
 				cancel()
@@ -300,12 +326,16 @@ func (sc *C03Scenario) Execute(t *testing.T) *core.Outcome {
 				// persistent bus goes through the store lock)
 				typ(op.T).SubReplay(w, ctx, fmt.Sprintf("sub-%d", op.N%2), func(int) {
 					simrt.Yield(siteHandler)
-					if !simrt.Dying() && op.T != 2 && op.Fn%2 == 0 {
+					// (not on SQLite with batched streaming: the replay re-queries the log as it goes, an upcaster may map the
+					// leaf type to the subscribed one, and a handler that appends to the stream it is replaying never ends)
+					if !simrt.Dying() && op.T != 2 && op.Fn%2 == 0 && !sc.SQLite {
 						reenter(C03Op{Kind: "pub", N: op.N})
 					}
 				})
 			case "save-offset":
-				store.SaveOffset(ctx, fmt.Sprintf("sub-%d", op.N%2), eventbus.Offset(fmt.Sprintf("%020d", op.Fn+1)))
+				if evs, _, err := store.Read(ctx, eventbus.OffsetOldest, op.Fn+1); err == nil && len(evs) > 0 {
+					store.SaveOffset(ctx, fmt.Sprintf("sub-%d", op.N%2), evs[len(evs)-1].Offset)
+				}
 			case "load-offset":
 				store.LoadOffset(ctx, fmt.Sprintf("sub-%d", op.N%2))
 			case "storeread":
@@ -371,6 +401,11 @@ func (sc *C03Scenario) Execute(t *testing.T) *core.Outcome {
 		return out
 	}
 	out.Nontrivial = rep.Choices > 0
+	if call, hung := storeHang(rep); hung {
+		out.HarnessErr = ""
+		out.V("store-call-never-returned", "a call into the store did not return although nothing else was runnable and a minute of simulated time had passed: %s", call)
+		return out
+	}
 	if rep.BudgetExceeded {
 		out.HarnessErr = "step budget exceeded"
 	}
